@@ -81,7 +81,11 @@ func (p *Prog) expr(v ssa.Value, onPath map[ssa.Value]bool, depth int) *Expr {
 				if v.Parent().Parent() != nil {
 					// parameter of a function literal: keep it apart from the
 					// enclosing function's parameters, which literals also see
-					return &Expr{Op: "param", Name: fmt.Sprintf("c%d", i), Val: v}
+					depth := 0
+					for f := v.Parent(); f.Parent() != nil; f = f.Parent() {
+						depth++
+					}
+					return &Expr{Op: "param", Name: strings.Repeat("c", depth) + fmt.Sprint(i), Val: v}
 				}
 				return &Expr{Op: "param", Name: fmt.Sprintf("p%d", i), Val: v}
 			}
